@@ -537,3 +537,261 @@ Definition expected_get_store_id : list stm :=
 
 Definition expected_result_get : list stm :=
   [ SEv (Call "get_store_id"); SIf [SExit] []; SExit ].
+
+(* ================================================== round 3: the remaining
+   functions of results_store.py / result.py *)
+
+(* erase reads everywhere (writes, calls, lock operations, raises, returns
+   and the nesting stay) *)
+Fixpoint no_reads (s : stm) : list stm :=
+  let go := fix go (l : list stm) : list stm :=
+              match l with [] => [] | x :: r => (no_reads x ++ go r)%list end in
+  match s with
+  | SEv (Rd _) => []
+  | SEv e => [SEv e]
+  | SRaise x => [SRaise x]
+  | SExit => [SExit]
+  | SIf a b => [SIf (go a) (go b)]
+  | SLoop b => [SLoop (go b)]
+  | STry b hs o f =>
+      [STry (go b) (map (fun h => (fst h, go (snd h))) hs) (go o) (go f)]
+  end.
+Fixpoint no_reads_list (l : list stm) : list stm :=
+  match l with [] => [] | x :: r => (no_reads x ++ no_reads_list r)%list end.
+
+(* ---- ResultStoreParallel.local: who may use a worker-local store ---- *)
+Inductive local_res :=
+| LNew        (* a new ResultStoreSimple(f_preallocator=self.preallocate,
+                 prealloc_block_size=self.prealloc_block_size) owned by pid *)
+| LOwn        (* the store this process created *)
+| LForeign.   (* ResultStoreException: created by another process *)
+
+Definition local_model (owner : option Z) (pid : Z) : local_res :=
+  match owner with
+  | None => LNew
+  | Some o => if Z.eqb o pid then LOwn else LForeign
+  end.
+
+Record lst := mkLst {
+  l_owner : option Z; l_pid : option Z;   (* pid once os.getpid() was called *)
+  l_made : bool;                          (* ResultStoreSimple(...) built, not yet assigned *)
+  l_new : bool; l_raised : bool; l_reads : list string }.
+
+Definition l_ev (e : ev) (st : lst) : option lst :=
+  match e with
+  | Rd c => Some (mkLst (l_owner st) (l_pid st) (l_made st) (l_new st)
+                        (l_raised st) (c :: l_reads st))
+  | Call f =>
+      if String.eqb f "getpid" then
+        Some (mkLst (l_owner st) (Some 0%Z) (l_made st) (l_new st) (l_raised st)
+                    (l_reads st))
+      else if String.eqb f "new_local_store"
+              && reads_has ["preallocate_fn"; "bsize"] (l_reads st) then
+        Some (mkLst (l_owner st) (l_pid st) true (l_new st) (l_raised st) [])
+      else None
+  | Wr c =>
+      (* self._local_store = {'store': store, 'owner': pid} - only ever
+         right after building a new store *)
+      if String.eqb c "local_store" && l_made st then
+        match l_pid st with
+        | Some _ => Some (mkLst (l_owner st) (l_pid st) false true (l_raised st) [])
+        | None => None
+        end
+      else None
+  | _ => None
+  end.
+
+Definition l_raise (x : string) (st : lst) : option (lst * bool) :=
+  if String.eqb x "ResultStoreException"
+  then Some (mkLst (l_owner st) (l_pid st) (l_made st) (l_new st) true
+                   (l_reads st), true)
+  else None.
+
+Definition l_exit (st : lst) : option lst :=
+  if reads_eq ["local_store"] (l_reads st) then Some st else None.
+
+(* [pid] is abstract: the tests compare the recorded owner with it *)
+Definition l_guards (pid : Z) : list (guard lst) :=
+  [ (* if self._local_store is None: *)
+    (["local_store"],
+     fun st => match l_owner st with None => true | Some _ => false end);
+    (* elif self._local_store['owner'] != pid: *)
+    (["local_store"],
+     fun st => match l_owner st with
+               | Some o => negb (Z.eqb o pid)
+               | None => false
+               end) ].
+
+Definition run_local (t : list stm) (owner : option Z) (pid : Z)
+  : option local_res :=
+  match walk_list lst l_reads
+                  (fun st => mkLst (l_owner st) (l_pid st) (l_made st) (l_new st)
+                                   (l_raised st) [])
+                  l_ev no_loop l_raise l_exit t
+                  (mkLst owner None false false false []) (l_guards pid) with
+  | WOk st _ true =>
+      match l_pid st with
+      | None => None                       (* pid never obtained *)
+      | Some _ =>
+          if l_raised st then Some LForeign
+          else if l_new st then Some LNew else Some LOwn
+      end
+  | _ => None
+  end.
+
+Definition expected_rsp_local : list stm :=
+  [ SEv (Call "getpid");
+    SIf [SEv (Call "new_local_store"); SEv (Wr "local_store")]
+        [SIf [SRaise "ResultStoreException"] []];
+    SExit ].
+
+(* ---- the other ResultStoreParallel / ResultStoreBase functions ---- *)
+(* __init__: the base initialiser first, then the pointer and the four dicts
+   replaced by manager objects, no local store yet *)
+Definition expected_rsp_init : list stm :=
+  [ SEv (Call "base_init"); SEv (Call "mgr_value"); SEv (Wr "alloc_pointer");
+    SEv (Call "mgr_dict"); SEv (Wr "data");
+    SEv (Call "mgr_dict"); SEv (Wr "value_store");
+    SEv (Call "mgr_dict"); SEv (Wr "tag_store");
+    SEv (Call "mgr_dict"); SEv (Wr "sequence_id_store");
+    SEv (Wr "local_store") ].
+
+(* _allocate_next: the base function under the store lock, nothing else *)
+Definition expected_rsp_allocate_next : list stm :=
+  [ SEv (Acq "store"); SEv (Call "base_allocate_next"); SExit;
+    SEv (Rel "store") ].
+
+(* add: delegated to the local store, the shared dicts untouched *)
+Definition expected_rsp_add : list stm := [ SEv (Call "local_add"); SExit ].
+
+(* sync, seen from the worker-local tables: each is read once (iterated),
+   none is written / cleared *)
+Definition expected_sync_local : list stm :=
+  [ SEv (Acq "store");
+    SEv (Rd "local_data"); SLoop [SIf [] []];
+    SEv (Rd "local_value_store"); SLoop [];
+    SEv (Rd "local_tag_store"); SLoop [];
+    SEv (Rd "local_sequence_id_store"); SLoop [];
+    SEv (Rel "store") ].
+
+(* ---- result.py ---- *)
+Definition expected_result_base_init : list stm :=
+  [ SEv (Call "base_init"); SEv (Wr "store"); SEv (Wr "linenumber");
+    SEv (Wr "section_id") ].
+
+(* __iter__: one store.get per part, in order *)
+Definition expected_result_iter : list stm :=
+  [ SEv (Rd "parts"); SLoop [SEv (Call "store_get")] ].
+
+Definition expected_minimal_init : list stm :=
+  [ SEv (Wr "parts"); SEv (Wr "meta"); SEv (Wr "linenumber");
+    SEv (Wr "source_id"); SEv (Wr "section_id");
+    SIf [SEv (Wr "field_names")] [SEv (Wr "field_names")];
+    SEv (Wr "store") ].
+
+(* __getattr__: (name is not 'field_names') -> (field_names and name in
+   field_names) -> get(name); otherwise AttributeError *)
+Definition expected_minimal_getattr : list stm :=
+  [ SIf [SEv (Rd "field_names"); SEv (Rd "field_names");
+         SIf [SEv (Call "get"); SExit] []] [];
+    SRaise "AttributeError" ].
+
+(* tag / sequence_id: the metadata slot; None -> None; else store.get *)
+Definition expected_minimal_meta : list stm :=
+  [ SEv (Rd "meta"); SIf [SExit] []; SEv (Call "store_get"); SExit ].
+
+Definition expected_register_results_store : list stm := [ SEv (Wr "store") ].
+
+(* SearchResult.__init__ without reads: sequence_id is set (None, then the
+   definition's sequence id) BEFORE the store_result_contents early return;
+   store_result comes last *)
+Definition expected_result_init : list stm :=
+  [ SEv (Wr "store"); SEv (Wr "parts"); SEv (Wr "linenumber");
+    SEv (Wr "source_id"); SEv (Wr "tag"); SEv (Wr "section_id");
+    SEv (Wr "sequence_id");
+    SIf [SIf [SRaise "FileSearchException"] []; SEv (Wr "sequence_id")] [];
+    SEv (Wr "field_info");
+    SIf [SExit] [];
+    SEv (Call "store_result") ].
+
+(* metadata: ONE results_store.add(self.tag, self.sequence_id, None), on
+   every evaluation, nothing remembered anywhere *)
+Definition expected_result_metadata : list stm :=
+  [ SEv (Rd "tag"); SEv (Rd "sequence_id"); SEv (Call "store_add"); SExit ].
+
+Definition expected_result_export : list stm :=
+  [ SEv (Rd "parts"); SEv (Rd "metadata_property"); SEv (Rd "linenumber");
+    SEv (Rd "source_id"); SEv (Rd "section_id"); SEv (Rd "field_info");
+    SEv (Call "new_minimal"); SExit ].
+
+(* ---- SearchResult.__init__ walked against the model's view of it ---- *)
+Inductive init_res :=
+| InitRaise                                 (* FileSearchException *)
+| InitOk (has_seq_id stored : bool).        (* sequence_id set? store_result run? *)
+
+(* Model/Result.make_result takes the sequence id as given, whether or not
+   the contents are stored *)
+Definition init_model (is_seq_part section_given store_contents : bool)
+  : init_res :=
+  if is_seq_part && negb section_given then InitRaise
+  else InitOk is_seq_part store_contents.
+
+Record rst := mkRst { r_seq : bool; r_stored : bool; r_raised : bool;
+                      r_reads : list string }.
+
+Definition r_ev (e : ev) (st : rst) : option rst :=
+  match e with
+  | Rd c => Some (mkRst (r_seq st) (r_stored st) (r_raised st) (c :: r_reads st))
+  | Wr c =>
+      if String.eqb c "sequence_id"
+      then Some (mkRst (in_strs "def_sequence_id" (r_reads st)) (r_stored st)
+                       (r_raised st) [])
+      else Some (mkRst (r_seq st) (r_stored st) (r_raised st) [])
+  | Call f =>
+      if String.eqb f "store_result"
+      then Some (mkRst (r_seq st) true (r_raised st) [])
+      else None
+  | _ => None
+  end.
+
+Definition r_raise (x : string) (st : rst) : option (rst * bool) :=
+  if String.eqb x "FileSearchException"
+  then Some (mkRst (r_seq st) (r_stored st) true (r_reads st), true)
+  else None.
+
+Definition r_guards (is_seq_part section_given store_contents : bool)
+  : list (guard rst) :=
+  [ (["def_sequence"], fun _ => is_seq_part);        (* if search_def.sequence_def: *)
+    ([], fun _ => negb section_given);               (*   if sequence_section_id is None: *)
+    (["def_store_contents"], fun _ => negb store_contents) ].
+
+Definition run_result_init (t : list stm)
+           (is_seq_part section_given store_contents : bool) : option init_res :=
+  match walk_list rst r_reads
+                  (fun st => mkRst (r_seq st) (r_stored st) (r_raised st) [])
+                  r_ev no_loop r_raise (fun st => Some st) t
+                  (mkRst false false false [])
+                  (r_guards is_seq_part section_given store_contents) with
+  | WOk st _ _ =>
+      if r_raised st then Some InitRaise
+      else Some (InitOk (r_seq st) (r_stored st))
+  | WErr => None
+  end.
+
+(* ---- a cheap normal form: "if a: if b: X" (nothing else in the outer
+   body, no else branches) is "if a and b: X" ---- *)
+Fixpoint collapse (s : stm) : stm :=
+  let go := fix go (l : list stm) : list stm :=
+              match l with [] => [] | x :: r => collapse x :: go r end in
+  match s with
+  | SIf a b =>
+      match go a, go b with
+      | [SIf x []], [] => SIf x []
+      | a', b' => SIf a' b'
+      end
+  | SLoop b => SLoop (go b)
+  | STry b hs o f =>
+      STry (go b) (map (fun h => (fst h, go (snd h))) hs) (go o) (go f)
+  | other => other
+  end.
+Definition collapse_list (l : list stm) : list stm := map collapse l.
